@@ -1,7 +1,9 @@
 #!/usr/bin/env python3
 """
-cxx2lean.py -- shared machinery of the source-to-Lean translators levels_to_lean.py and
-hashstream_to_lean.py (terminal_to_lean.py is older and self-contained).
+cxx2lean.py -- shared machinery of the source-to-Lean translators levels_to_lean.py,
+hashstream_to_lean.py and counterarray_to_lean.py (terminal_to_lean.py is older and self-contained;
+counterarray_to_lean.py subclasses `Exec` for heap blocks, pointers, size_t / unsigned char / unsigned short,
+member calls and the copy-loop idiom, and installs its own type parser through `TYPE_HOOK`).
 
   * `run_clang` runs `clang++-14 -std=gnu++17 -fsyntax-only -DHAVE_CONFIG_H -I... -Xclang -ast-dump=json
     -Xclang -ast-dump-filter=<name>` on a tiny probe file and `parse_docs` reads the typed JSON AST
@@ -46,7 +48,7 @@ def die(msg):
 def annotate_lines(doc):
     """clang's JSON prints `line` only when it differs from the previously printed location;
     replay the print order (dict order) and store the effective line as `_line` in every location"""
-    state = {"line": None}
+    state = {"line": None, "file": None}
 
     def loc(d):
         if not isinstance(d, dict):
@@ -56,10 +58,13 @@ def annotate_lines(doc):
                 if k in ("spellingLoc", "expansionLoc"):
                     loc(d[k])
             return
+        if "file" in d:
+            state["file"] = d["file"]
         if "line" in d:
             state["line"] = d["line"]
         if d:
             d["_line"] = state["line"]
+            d["_file"] = state["file"]
 
     def node(n):
         if not isinstance(n, dict):
@@ -75,6 +80,20 @@ def annotate_lines(doc):
                     node(c)
 
     node(doc)
+
+
+def file_of(n):
+    """source file of a node (clang prints `file` only when it changes; see annotate_lines)"""
+    cands = []
+    if "loc" in n:
+        cands.append(n["loc"])
+    if "range" in n:
+        cands.append(n["range"].get("begin", {}))
+    for d in cands:
+        for sub in (d.get("expansionLoc", {}), d.get("spellingLoc", {}), d):
+            if sub.get("_file") is not None:
+                return sub["_file"]
+    return None
 
 
 def where(n):
@@ -188,8 +207,13 @@ TYPES = {t.name: t for t in (T_INT, T_UINT, T_BOOL, T_VOID)}
 INT_MIN, INT_MAX = -(1 << 31), (1 << 31) - 1
 
 
+TYPE_HOOK = [None]      # a translator with more C++ types (counterarray_to_lean.py) installs its own parser here
+
+
 def type_of_json(t, ctx):
     """-> (Ty, is_reference)"""
+    if TYPE_HOOK[0] is not None:
+        return TYPE_HOOK[0](t, ctx)
     q = t.get("desugaredQualType", t.get("qualType"))
     if q is None:
         die("%s: node without a type" % ctx)
